@@ -5,6 +5,7 @@ from .. import ev, iso, nf, pat, src
 from ..core import rule, ob, explain
 from ..interp import Interp, make_callable, Raised
 from ..src import Unknown
+from ..ev import PyRaise
 from .common import C, levels, micro_versions, modes, table_ob, need, single
 
 explain('C13', '''Decided completely for the four helpers, which are pure integer arithmetic on (version,
@@ -111,7 +112,8 @@ def r3(fx):
         bad = None
         n = 0
         for cap in caps[v]:
-            for k in range(0, min(cap // 8, 6) + 1):
+            # near the capacity (0..6 codewords short) and near the empty stream (all, or all but one / two codewords are padding)
+            for k in sorted(set(range(0, min(cap // 8, 6) + 1)) | {max(cap // 8 - j, 0) for j in (0, 1, 2)}):
                 ln = cap - 8 * k       # aligned stream, k codewords short of the capacity
                 b = Buf(ln)
                 _run(fx, 'write_pad_codewords', b, mv[v] if v < 1 else v, cap, len(b))
@@ -171,12 +173,46 @@ def r6(fx):
     fn = fx.fn('encoder', '_encode')
     lv, mv = levels(fx), micro_versions(fx)
     cap = C(fx, 'SYMBOL_CAPACITY')
-    for v, level, boosted in ((5, 'L', 'Q'), (-2, 'L', 'M'), (-3, None, None), (1, 'M', 'M')):
+    from .models import SegModel, SegmentsModel, SAModel
+    md = modes(fx)
+    writers_ = ('write_segment', 'write_terminator', 'write_padding_bits', 'write_pad_codewords')
+    cases = [(v_, l_, b_, None) for v_, l_, b_ in ((5, 'L', 'Q'), (-2, 'L', 'M'), (-3, None, None), (1, 'M', 'M'))]
+    real_stages = False
+    try:
+        trace_encode(fx, 5, 'L', 'Q')
+    except PyRaise as ex:
+        if ex.name != 'TypeError':
+            raise
+        # the stages hand something back that _encode uses (a running length, say): the stand-ins, which return nothing, cannot
+        # take their place.  The repository's own stages then run on the model buffer, for segments of every mode (with and
+        # without ECI header, with the Structured Append header), and the length each stage is told is compared with the
+        # length the buffer really has.
+        real_stages = True
+        cases += [(5, 'L', 'Q', k_) for k_ in ('hanzi', 'kanji', 'numeric', 'alphanumeric', 'byte utf-8 eci', 'byte utf-8', 'sa', 'two segments')] + [(-1, 'L', 'M', 'kanji')]
+    for v, level, boosted, kind in cases:
         rv = mv[v] if v < 1 else v
-        rec, res, info = trace_encode(fx, rv, level, boosted)
+        kw = {}
+        if real_stages:
+            kw = dict(run_real=writers_, real_write_segment=True)
+            segs = [SegModel(md['byte'], 'iso-8859-1', nbits=24, char_count=3)]
+            if v in (-3, -2):       # M1 / M2 know no byte mode
+                segs = [SegModel(md['numeric'], None, nbits=10, char_count=3)]
+            if kind in ('hanzi', 'kanji'):
+                segs = [SegModel(md[kind], None, nbits=26, char_count=2)]
+            elif kind in ('numeric', 'alphanumeric'):
+                segs = [SegModel(md[kind], None, nbits=10 if kind == 'numeric' else 11, char_count=3 if kind == 'numeric' else 2)]
+            elif kind and kind.startswith('byte utf-8'):
+                segs = [SegModel(md['byte'], 'utf-8', nbits=16, char_count=2)]
+                kw['eci'] = kind.endswith('eci')
+            elif kind == 'two segments':
+                segs = [SegModel(md['numeric'], None, nbits=10, char_count=3), SegModel(md['byte'], 'iso-8859-1', nbits=8, char_count=1)]
+            if kind == 'sa':
+                kw['sa_info'] = SAModel((3, 1, 2, 0x5A))
+            kw['segments'] = SegmentsModel(segs)
+        rec, res, info = trace_encode(fx, rv, level, boosted, **kw)
         names = [r[0] for r in rec if r[0] in ('boost_error_level', 'write_terminator', 'write_padding_bits', 'write_pad_codewords', 'make_final_message')]
         by = {r[0]: r for r in rec}
-        tag = f'v{v} level {level} boosted to {boosted}'
+        tag = f'v{v} level {level} boosted to {boosted}' + (f' ({kind})' if kind else '')
         want_order = ['boost_error_level', 'write_terminator', 'write_padding_bits', 'write_pad_codewords', 'make_final_message']
         probs = []
         if names != want_order:
